@@ -18,8 +18,10 @@ package wal
 
 //@ func (*WAL).Append
 //@   nonblocking[C15]
-//@   modifies w.nextSequence, w.bytesWritten, w.batchByteSize, w.overflowWarning, w.lastSync, wrlen, wrbytes, walLastType
+//@   modifies w.nextSequence, w.bytesWritten, w.batchByteSize, w.overflowWarning, w.lastSync, wrlen, wrbytes, walLastType, wrflushed, filesyncs
 //@   ensures[C09]     err == nil ==> walLastType == RecordTypeFull || walLastType == RecordTypeLast
+//@   ensures[C02]     err == nil ==> wrlen[w.writer] > old(wrlen[w.writer])
+//@   ensures[C02]     err == nil && w.cfg.WALSyncMode == config.SyncImmediate ==> wrflushed[w.writer] == wrlen[w.writer] && filesyncs > old(filesyncs)
 //@   ensures[C08]     w.nextSequence >= old(w.nextSequence)
 //@   ensures[C08,C01] err == nil ==> result0 == old(w.nextSequence) && w.nextSequence == old(w.nextSequence) + 1
 //@   ensures[C08]     err == nil ==> result0 < MaxSequenceNumber
@@ -29,20 +31,26 @@ package wal
 // A batch consumes exactly one sequence number, shared by its entries; an empty batch consumes none.
 //@ func (*WAL).AppendBatch
 //@   nonblocking[C15]
-//@   modifies w.nextSequence, w.bytesWritten, w.batchByteSize, w.overflowWarning, w.lastSync, w.writer, all(Mem byte), wrlen, wrbytes, walLastType
+//@   modifies w.nextSequence, w.bytesWritten, w.batchByteSize, w.overflowWarning, w.lastSync, w.writer, all(Mem byte), wrlen, wrbytes, walLastType, wrflushed, filesyncs
+//@   ensures[C02]     err == nil && len(entries) > 0 && w.cfg.WALSyncMode == config.SyncImmediate ==> wrflushed[w.writer] == wrlen[w.writer] && filesyncs > old(filesyncs)
 //@   ensures[C08]     w.nextSequence >= old(w.nextSequence)
 //@   ensures[C08]     err == nil && len(entries) == 0 ==> result0 == old(w.nextSequence) && w.nextSequence == old(w.nextSequence)
 //@   ensures[C08,C01] err == nil && len(entries) > 0 ==> result0 == old(w.nextSequence) && w.nextSequence == old(w.nextSequence) + 1
 //@   ensures[C08]     err == nil ==> result0 < MaxSequenceNumber || len(entries) == 0
 //@   ensures[C03,C06] (err == ErrWALRotating || err == ErrWALClosed || err == ErrSequenceOverflow) ==> w.nextSequence == old(w.nextSequence)
 
+// C02: synchronous logging - a nil result in SyncImmediate mode means that every byte written through the log's writer
+// so far has been flushed to the file and the file has been fsynced, in that order.
 //@ func (*WAL).maybeSync
-//@   modifies w.lastSync, w.batchByteSize
+//@   modifies w.lastSync, w.batchByteSize, wrflushed, filesyncs
+//@   ensures[C02] err == nil && w.cfg.WALSyncMode == config.SyncImmediate ==> wrflushed[w.writer] == wrlen[w.writer] && filesyncs > old(filesyncs)
 //@   ensures[C06] err == ErrWALRotating ==> w.status == WALStatusRotating
 //@   ensures[C06] err == ErrWALClosed ==> w.status == WALStatusClosed
 //@   ensures[C06] err != ErrInvalidOpType && err != ErrSequenceOverflow
 //@ func (*WAL).syncLocked
-//@   modifies w.lastSync, w.batchByteSize
+//@   modifies w.lastSync, w.batchByteSize, wrflushed, filesyncs
+//@   ensures[C02] err == nil ==> wrflushed[w.writer] == wrlen[w.writer] && filesyncs > old(filesyncs)
+//@   check[C02] before call (*os.File).Sync#1: wrflushed[w.writer] == wrlen[w.writer]
 //@   ensures[C06] err == ErrWALRotating ==> w.status == WALStatusRotating
 //@   ensures[C06] err == ErrWALClosed ==> w.status == WALStatusClosed
 //@   ensures[C06] err != ErrInvalidOpType && err != ErrSequenceOverflow
@@ -51,6 +59,7 @@ package wal
 //@ func (*WAL).writeRecord
 //@   modifies w.bytesWritten, w.batchByteSize, wrlen, wrbytes, walLastType
 //@   ensures[C09] err == nil ==> walLastType == recordType
+//@   ensures[C02] err == nil ==> wrlen[w.writer] > old(wrlen[w.writer])
 //@   check[C09] before call (*WAL).writeRawRecord#1: arg_recordType == recordType
 //@   check[C09] before call (*WAL).writeRawRecord#1: EntryLayout(arg_data, entryType, seqNum, key, value)
 //@   ensures[C06] err != ErrWALRotating && err != ErrWALClosed && err != ErrInvalidOpType && err != ErrSequenceOverflow
@@ -65,9 +74,11 @@ package wal
 //@   check[C09] before call (*WAL).writeRawRecord#3: arg_recordType == RecordTypeMiddle && len(arg_data) == MaxRecordSize
 //@   check[C09] before call (*WAL).writeRawRecord#2: arg_recordType == RecordTypeLast && 0 < len(arg_data) && len(arg_data) <= MaxRecordSize
 //@   ensures[C09] err == nil ==> walLastType == RecordTypeLast
+//@   ensures[C02] err == nil ==> wrlen[w.writer] > old(wrlen[w.writer])
 //@   ensures[C06] err != ErrWALRotating && err != ErrWALClosed && err != ErrInvalidOpType && err != ErrSequenceOverflow
 //@ loop (*WAL).writeFragmentedRecord#1
 //@   invariant[C09] len(remaining) > 0
+//@   invariant[C02] wrlen[w.writer] > old(wrlen[w.writer])
 // One physical record at offset o of a byte stream: crc32(payload) | len(2) | type(1) | payload.
 //@ predicate RecordAt(b map[int]int, o int, typ uint8, d []byte) = b[o] + 256*b[o+1] + 65536*b[o+2] + 16777216*b[o+3] == crc32(bstr(d)) && b[o+4] + 256*b[o+5] == len(d) && b[o+6] == typ && (forall j int :: 0 <= j && j < len(d) ==> b[o+7+j] == d[j])
 //@ func (*WAL).writeRawRecord
